@@ -75,7 +75,7 @@ NATIVE_OPAQUE["bds05.airborne_position_with_ref"] = _n_apr
 NATIVE_OPAQUE["bds06.surface_position_with_ref"] = _n_spr
 
 
-@harness(("C04", "C14", "C17"), inputs={"msg": HexStr(28), "lat_ref": RealRange(-90, 90), "lon_ref": RealRange(-180, 180)},
+@harness(("C04", "C14"), inputs={"msg": HexStr(28), "lat_ref": RealRange(-90, 90), "lon_ref": RealRange(-180, 180)},
          functions=["pyModeS.decoder.adsb.position_with_ref"], body_of=["pyModeS.decoder.adsb.position_with_ref"],
          idealised=True,
          overrides={D5 + "airborne_position_with_ref": ap_ref_opaque, D6 + "surface_position_with_ref": sp_ref_opaque})
